@@ -82,18 +82,23 @@ func CheckHashPassword(clientResp, scramble, encryptPassword []byte) bool {
 	if len(encryptPassword) == 0 {
 		return false
 	}
-	hashBytes, _ := hex.DecodeString(string(encryptPassword))
+	hashBytes, err := hex.DecodeString(string(encryptPassword))
+	if err != nil || len(hashBytes) != sha1.Size || len(clientResp) != sha1.Size {
+		return false
+	}
 	crypt := sha1.New()
 	crypt.Write(scramble)
 	crypt.Write(hashBytes)
 	hash := crypt.Sum(nil)
 
-	for i := range clientResp {
-		clientResp[i] ^= hash[i]
+	// do not modify clientResp: the caller checks the same response against other passwords
+	stage1 := make([]byte, sha1.Size)
+	for i := range stage1 {
+		stage1[i] = clientResp[i] ^ hash[i]
 	}
 
 	crypt.Reset()
-	crypt.Write(clientResp)
+	crypt.Write(stage1)
 	hash = crypt.Sum(nil)
 
 	return bytes.Equal(hashBytes, hash)
